@@ -187,25 +187,29 @@ change must be reported within `minInterval + additionalWait`. -/
 
 def within (a b tol : Nat) : Bool := a ≤ b + tol && b ≤ a + tol
 
+/-- tolerance of the relational tie: under load the kernel may deliver an event to the real watcher a
+few hundred ms later than to the second one (observed: 220 ms at load average 30) -/
+def tieSlack : Nat := 400
+
 /-- a signal at `g` (previous one at `prev`) is allowed: an immediate report of a change not inside the
 quiet interval, or the trailing report `minInterval` (+ sleep) after the previous signal -/
 def sigLegit (chs : List Nat) (prev : Option Nat) (g : Nat) : Bool :=
-  (chs.any fun c => within g (c + additionalWait) slack &&
-      (match prev with | none => true | some p => p + minInterval ≤ c + additionalWait + slack)) ||
+  (chs.any fun c => within g (c + additionalWait) tieSlack &&
+      (match prev with | none => true | some p => p + minInterval ≤ c + additionalWait + tieSlack)) ||
   (match prev with
     | none => false
-    | some p => within g (p + minInterval + additionalWait) slack &&
-        chs.any fun c => p ≤ c + additionalWait + slack && c ≤ g + slack)
+    | some p => within g (p + minInterval + additionalWait) tieSlack &&
+        chs.any fun c => p ≤ c + additionalWait + tieSlack && c ≤ g + tieSlack)
 
 def allLegit (chs : List Nat) : Option Nat → List Nat → Bool
   | _, [] => true
   | prev, g :: gs => sigLegit chs prev g && allLegit chs (some g) gs
 
-/-- every change is reported within `minInterval + 2·additionalWait` (+ slack), unless the file
+/-- every change is reported within `minInterval + 2·additionalWait` (+ tieSlack), unless the file
 disappears again before that -/
 def promptlyReported (c0 : Nat) (evs : List Ev) (sigs : List Nat) : Bool :=
   (changeTimes c0 evs).all fun c =>
-    (sigs.any fun g => c ≤ g + slack && g ≤ c + minInterval + 2 * additionalWait + slack) ||
-    (evs.any fun e => e.cur == 0 && c ≤ e.t && e.t ≤ c + minInterval + 2 * additionalWait + slack)
+    (sigs.any fun g => c ≤ g + tieSlack && g ≤ c + minInterval + 2 * additionalWait + tieSlack) ||
+    (evs.any fun e => e.cur == 0 && c ≤ e.t && e.t ≤ c + minInterval + 2 * additionalWait + tieSlack)
 
 end MtxVerif.C38
